@@ -114,7 +114,8 @@ def generate(rng: random.Random, tier: str):
                                desc={"op": "can_replace_with", "family": fam, "node": n.to_json(), "from": f, "to": t,
                                      "type": ty.name, "marks": [m.to_json() for m in ms], "obs": term},
                                schema=S, kind=f"can_replace_with/{term[:8]}")
-                o = rng.choice(pool)
+                same = [x for x in pool if x.type == n.type and x.content.size]
+                o = rng.choice(same) if same and rng.random() < 0.6 else rng.choice(pool)
                 term, ok = res_bool(lambda: n.can_append(o))
                 yield Case(coq=f"CCanAppend @S@ {info.node(n)} {info.node(o)} {term}",
                            desc={"op": "can_append", "family": fam, "node": n.to_json(), "other": o.to_json(), "obs": term},
